@@ -7,7 +7,7 @@ worktree (VERIF_REPO) and stores everything under /verif/seeded/<seed id>/."""
 import json, os, re, subprocess, sys, time, shutil
 
 sid, wt, pid = sys.argv[1], sys.argv[2], sys.argv[3]
-checks = sys.argv[4:] or [pid]
+checks = [pid] + [c for c in sys.argv[4:] if c != pid]
 out = '/verif/seeded/%s' % sid
 os.makedirs(out, exist_ok=True)
 env = dict(os.environ, PYTHONPATH=wt, PYTHONDONTWRITEBYTECODE='1')
@@ -30,19 +30,21 @@ meta['tests_with_change'] = o.strip().split('\n')[-1]
 # demo with / without
 rc1, o1 = sh('/venv/bin/python demo.py 2>&1 | tail -5')
 meta['demo_with_change'] = {'exit': rc1, 'tail': o1.strip()[-300:]}
-sh('git stash -q')
+# (git stash is shared by all worktrees of a repository: revert/re-apply the patch file instead)
+pf = os.path.join(out, 'patch.diff')
+assert sh('git apply -R %s' % pf)[0] == 0, 'cannot revert the patch'
 try:
     rc0, o0 = sh('/venv/bin/python demo.py 2>&1 | tail -5')
 finally:
-    sh('git stash pop -q')
+    assert sh('git apply %s' % pf)[0] == 0, 'cannot re-apply the patch' 
 meta['demo_without_change'] = {'exit': rc0, 'tail': o0.strip()[-300:]}
 # demo exit codes come through a pipe (tail): re-run for the real status
 meta['demo_with_change']['exit'] = subprocess.run('/venv/bin/python demo.py >/dev/null 2>&1', shell=True, cwd=wt, env=env).returncode
-sh('git stash -q')
+assert sh('git apply -R %s' % pf)[0] == 0
 try:
     meta['demo_without_change']['exit'] = subprocess.run('/venv/bin/python demo.py >/dev/null 2>&1', shell=True, cwd=wt, env=env).returncode
 finally:
-    sh('git stash pop -q')
+    assert sh('git apply %s' % pf)[0] == 0
 meta['checks'] = {}
 for c in checks:
     t = time.time()
